@@ -157,6 +157,14 @@ def check_case(ctx: Ctx, c: Dict[str, Any], k: int = 0) -> None:
     cmp_near("sample_image", o)
     o = guarded("grid_sample", lambda: U.grid_sample(data.unsqueeze(0).unsqueeze(0), coords.unsqueeze(0), mode="linear", padding=pad, align_corners=ac))
     cmp_lin("grid_sample", o)
+    # the same for image data of other types (integer images are interpolated in float; float64 stays float64)
+    for dt in (torch.int16, torch.uint8, torch.float64):
+        o = guarded("grid_sample", lambda: U.grid_sample(data.to(dt).unsqueeze(0).unsqueeze(0), coords.unsqueeze(0).to(torch.float64 if dt == torch.float64 else torch.float32),
+                                                         mode="linear", padding=pad, align_corners=ac), dtype=str(dt))
+        cmp_lin("grid_sample", o, dtype=str(dt))
+        o = guarded("Image.sample", lambda: Image(data.to(dt).unsqueeze(0), gs).sample(gt, mode="linear", padding=pad), dtype=str(dt))
+        if o is not None:
+            cmp_lin("Image.sample", o.tensor(), dtype=str(dt))
     # SampleImage module: target cube coordinates -> source
     sm = guarded("SampleImage", lambda: SampleImage(target=gt, source=gs, sampling="linear", padding=pad))
     if sm is not None:
